@@ -51,19 +51,37 @@ class Obj:
 
 
 class State:
-    """env (name -> V) for the current frame + the shared store."""
+    """env (name -> V) for the current frame + the shared store (copy-on-write)."""
 
-    __slots__ = ("env", "store", "dead")
+    __slots__ = ("env", "store", "dead", "owned")
 
     def __init__(self, env=None, store=None):
         self.env = env if env is not None else {}
         self.store = store if store is not None else {}
         self.dead = False
+        self.owned = set(self.store)
 
     def copy(self):
-        s = State(dict(self.env), {a: o.copy() for a, o in self.store.items()})
+        s = State(dict(self.env), dict(self.store))
+        s.owned = set()
+        self.owned = set()  # objects are now shared: both sides must copy before writing
         s.dead = self.dead
         return s
+
+    def mut(self, addr):
+        """Heap object at addr, private to this state (copied on first write)."""
+        o = self.store.get(addr)
+        if o is None:
+            return None
+        if addr not in self.owned:
+            o = o.copy()
+            self.store[addr] = o
+            self.owned.add(addr)
+        return o
+
+    def put(self, addr, obj):
+        self.store[addr] = obj
+        self.owned.add(addr)
 
 
 class Domain:
@@ -193,13 +211,20 @@ class Interp:
     def alloc(self, st: State, kind, node, slots=None, elem=None, meta=None) -> int:
         ctx = tuple(id(fr.func) for fr in self.stack[-3:])
         addr = (id(node), ctx, kind)
-        st.store[addr] = Obj(kind, slots or {}, elem, meta)
+        st.put(addr, Obj(kind, slots or {}, elem, meta))
         return addr
 
     def obj(self, st: State, v: V) -> Optional[Obj]:
+        """Read-only view of the heap object of v (do not mutate: use mobj)."""
         if v is None or v.ref is None:
             return None
         return st.store.get(v.ref)
+
+    def mobj(self, st: State, v: V) -> Optional[Obj]:
+        """Heap object of v, private to st (copy-on-write)."""
+        if v is None or v.ref is None:
+            return None
+        return st.mut(v.ref)
 
     def new(self, st, kind, node, slots=None, elem=None, meta=None, tag=None) -> V:
         a = self.alloc(st, kind, node, slots, elem, meta)
@@ -230,13 +255,13 @@ class Interp:
         if addr == a.ref or addr == b.ref:
             keep = a.ref if addr == a.ref else b.ref
             other = ob if keep == a.ref else oa
-            st_out.store[keep] = self.join_obj(st_out.store[keep], other, st_out)
+            st_out.put(keep, self.join_obj(st_out.store[keep], other, st_out))
             return V(tag, keep)
         if addr not in st_out.store:
-            st_out.store[addr] = Obj("unknown")  # placeholder against cycles
-            st_out.store[addr] = self.join_obj(oa, ob, st_out)
+            st_out.put(addr, Obj("unknown"))  # placeholder against cycles
+            st_out.put(addr, self.join_obj(oa, ob, st_out))
         else:
-            st_out.store[addr] = self.join_obj(st_out.store[addr], self.join_obj(oa, ob, st_out), st_out)
+            st_out.put(addr, self.join_obj(st_out.store[addr], self.join_obj(oa, ob, st_out), st_out))
         return V(tag, addr)
 
     def join_obj(self, oa: Obj, ob: Obj, st_out: State) -> Obj:
@@ -258,20 +283,21 @@ class Interp:
         if b is None or b.dead:
             return a
         out = State({}, {})
-        for addr in set(a.store) | set(b.store):
-            oa, ob = a.store.get(addr), b.store.get(addr)
-            if oa is None:
-                out.store[addr] = ob.copy()
-            elif ob is None:
-                out.store[addr] = oa.copy()
+        a.owned = set()
+        b.owned = set()
+        todo = []
+        for addr, oa in a.store.items():
+            ob = b.store.get(addr)
+            if ob is None or ob is oa:
+                out.store[addr] = oa  # shared, not owned
             else:
-                out.store[addr] = None  # placeholder, filled below
-        # fill shared objects (needs out.store to exist for nested joins)
-        for addr in list(out.store):
-            if out.store[addr] is None:
-                out.store[addr] = Obj("unknown")
-        for addr in set(a.store) & set(b.store):
-            out.store[addr] = self.join_obj(a.store[addr], b.store[addr], out)
+                out.store[addr] = oa
+                todo.append(addr)
+        for addr, ob in b.store.items():
+            if addr not in a.store:
+                out.store[addr] = ob
+        for addr in todo:
+            out.put(addr, self.join_obj(a.store[addr], b.store[addr], out))
         for k in set(a.env) | set(b.env):
             out.env[k] = self.join_v(a.env.get(k), b.env.get(k), out)
         return out
@@ -283,6 +309,8 @@ class Interp:
             return False
         for k, oa in a.store.items():
             ob = b.store[k]
+            if oa is ob:
+                continue
             if oa.kind != ob.kind or oa.slots != ob.slots or oa.elem != ob.elem:
                 return False
         return True
@@ -393,7 +421,7 @@ class Interp:
                 base = self.eval(t.value, st)
                 key = self.const_key(t.slice, st)
                 self.d.on_store(self, "del", base, key, V(self.d.bottom()), s, st)
-                o = self.obj(st, base)
+                o = self.mobj(st, base)
                 if o is not None and key is not _NOKEY and key in o.slots:
                     del o.slots[key]
             elif isinstance(t, ast.Name):
@@ -433,7 +461,7 @@ class Interp:
         res = self.d.binop(self, s.op, cur, rhs, s, st)
         # in-place for containers: keep identity
         if cur.ref is not None:
-            o = self.obj(st, cur)
+            o = self.mobj(st, cur)
             if o is not None and isinstance(s.op, ast.Add) and o.kind == "list":
                 ro = self.obj(st, rhs)
                 if ro is not None and ro.elem is not None:
@@ -542,7 +570,9 @@ class Interp:
         itv = self.eval(s.iter, st)
         elem = self.iter_elem(itv, s.iter, st)
         const_items = self.const_iter(s.iter, st)
-        if const_items is not None and len(const_items) <= 8:
+        if const_items is None:
+            const_items = self.unroll_items(itv, st)
+        if const_items is not None and len(const_items) <= 12:
             # unroll loops over constant tuples/lists
             cur = st
             fr = self.stack[-1]
@@ -683,7 +713,7 @@ class Interp:
             if key is _NOKEY:
                 self.eval(target.slice, st)
             self.d.on_store(self, "subscript", base, key if key is not _NOKEY else None, v, stmt, st)
-            o = self.obj(st, base)
+            o = self.mobj(st, base)
             if o is not None:
                 if key is not _NOKEY and o.kind in ("dict", "obj", "unknown", "list", "tuple"):
                     o.slots[key] = v  # strong update
@@ -697,7 +727,7 @@ class Interp:
         elif isinstance(target, ast.Attribute):
             base = self.eval(target.value, st)
             self.d.on_store(self, "attr", base, target.attr, v, stmt, st)
-            o = self.obj(st, base)
+            o = self.mobj(st, base)
             if o is not None:
                 o.slots["." + target.attr] = v
         elif isinstance(target, ast.Starred):
@@ -726,12 +756,60 @@ class Interp:
             return -sl.operand.value
         if isinstance(sl, ast.Name):
             v = st.env.get(sl.id)
-            ck = getattr(self.d, "const_of", None)
-            if v is not None and ck is not None:
-                c = ck(v)
+            if v is not None:
+                c = self.const_of(v, st)
                 if c is not _NOKEY and isinstance(c, (str, int, tuple)):
                     return c
+        if isinstance(sl, ast.Tuple):
+            parts = []
+            for e in sl.elts:
+                c = self.const_key(e, st)
+                if c is _NOKEY or isinstance(c, tuple):
+                    return _NOKEY
+                parts.append(c)
+            return tuple(parts)
         return _NOKEY
+
+    def const_of(self, v, st):
+        ck = getattr(self.d, "const_of", None)
+        if ck is None or v is None:
+            return _NOKEY
+        return ck(self, v, st)
+
+    def heapify(self, value, node, st, depth=0):
+        """Turn a Python constant (from the constant evaluator) into an abstract value."""
+        if isinstance(value, (list, tuple)) and depth < 4 and len(value) <= 64:
+            slots = {i: self.heapify(x, node, st, depth + 1) for i, x in enumerate(value)}
+            a = ("const", id(node), depth, id(value))
+            st.put(a, Obj("tuple" if isinstance(value, tuple) else "list", slots))
+            return V(self.d.fresh("list", node), a)
+        if isinstance(value, dict) and depth < 4 and len(value) <= 64:
+            slots = {}
+            for k, x in value.items():
+                if isinstance(k, (str, int, tuple)):
+                    slots[k] = self.heapify(x, node, st, depth + 1)
+            a = ("const", id(node), depth, id(value))
+            st.put(a, Obj("dict", slots))
+            return V(self.d.fresh("dict", node), a)
+        if value is None or isinstance(value, (str, int, float, bool)):
+            return V(self.d.const(value, node))
+        from .consteval import FuncRef
+
+        if isinstance(value, FuncRef):
+            a = ("constfunc", id(value.func))
+            st.put(a, Obj("func", meta={"func": value.func}))
+            return V(self.d.fresh("func", node), a)
+        return V(self.d.unknown(node))
+
+    def unroll_items(self, itv, st, limit=12):
+        """Elements of a fully known list/tuple value (no summary element), else None."""
+        o = self.obj(st, itv)
+        if o is None or o.kind not in ("list", "tuple") or o.elem is not None:
+            return None
+        keys = sorted(k for k in o.slots if isinstance(k, int))
+        if keys != list(range(len(keys))) or len(keys) != len(o.slots) or not keys or len(keys) > limit:
+            return None
+        return [o.slots[k] for k in keys]
 
     def const_iter(self, node, st):
         """List of V for a literal tuple/list of constants being iterated, else None."""
@@ -784,6 +862,11 @@ class Interp:
     def e_Name(self, e, st):
         v = self.lookup_name(e.id, st)
         if v is not None:
+            h = getattr(self.d, "on_name_load", None)
+            if h is not None:
+                v2 = h(self, e, v, st)
+                if v2 is not None:
+                    return v2
             return v
         fr = self.stack[-1]
         f = fr.func
@@ -812,8 +895,14 @@ class Interp:
             return V(self.d.global_ref(r, e))
         return V(self.d.unknown(e))
 
+    def note_deref(self, expr, base, st):
+        h = getattr(self.d, "deref", None)
+        if h is not None:
+            h(self, expr, base, st)
+
     def e_Attribute(self, e, st):
         base = self.eval(e.value, st)
+        self.note_deref(e.value, base, st)
         o = self.obj(st, base)
         if o is not None:
             if o.kind == "module":
@@ -849,6 +938,7 @@ class Interp:
 
     def e_Subscript(self, e, st):
         base = self.eval(e.value, st)
+        self.note_deref(e.value, base, st)
         key = self.const_key(e.slice, st)
         idx = self.eval(e.slice, st) if key is _NOKEY or True else None
         r = self.d.subscript(self, base, idx, key if key is not _NOKEY else None, e, st)
@@ -948,6 +1038,7 @@ class Interp:
         b = self.eval(e.orelse, sb)
         j = self.join_states(sa, sb)
         st.store = j.store
+        st.owned = j.owned
         st.env = j.env
         return self.join_v(a, b, st)
 
@@ -1011,7 +1102,51 @@ class Interp:
             st.env[k] = v
         return out
 
+    def _comp_unrolled(self, e, st):
+        """Single-generator comprehension over a fully known container: per-item evaluation."""
+        if len(e.generators) != 1:
+            return None
+        g = e.generators[0]
+        itv = self.eval(g.iter, st)
+        items = self.unroll_items(itv, st, limit=16)
+        if items is None:
+            return None
+        saved = dict(st.env)
+        out = []
+        for item in items:
+            self.assign(g.target, item, st, e)
+            sub = st.copy() if g.ifs else st
+            for c in g.ifs:
+                self.eval(c, sub)
+                self.refine(c, True, sub)
+            if isinstance(e, ast.DictComp):
+                k = self.const_key(e.key, sub)
+                if k is _NOKEY:
+                    k = self.const_of(self.eval(e.key, sub), sub)
+                v = self.eval(e.value, sub)
+                out.append((k, v, bool(g.ifs)))
+            else:
+                out.append((None, self.eval(e.elt, sub), bool(g.ifs)))
+            if g.ifs:
+                j = self.join_states(st, sub)
+                st.store = j.store
+                st.owned = j.owned
+        for k in list(st.env):
+            if k not in saved:
+                del st.env[k]
+        for k, v in saved.items():
+            st.env[k] = v
+        return out
+
     def e_ListComp(self, e, st):
+        un = self._comp_unrolled(e, st)
+        if un is not None and not any(f for _, _, f in un):
+            return self.new(st, "list", e, slots={i: v for i, (_, v, _) in enumerate(un)})
+        if un is not None:
+            ev = None
+            for _, v, _ in un:
+                ev = v if ev is None else self.join_v(ev, v, st)
+            return self.new(st, "list", e, elem=ev)
         return self._comp(e, st, lambda: self.new(st, "list", e, elem=self.eval(e.elt, st)))
 
     def e_SetComp(self, e, st):
@@ -1021,6 +1156,13 @@ class Interp:
         return self._comp(e, st, lambda: self.new(st, "list", e, elem=self.eval(e.elt, st), meta={"genexp": True}))
 
     def e_DictComp(self, e, st):
+        un = self._comp_unrolled(e, st)
+        if un is not None and all(isinstance(k, (str, int, tuple)) for k, _, _ in un):
+            slots = {}
+            for k, v, filtered in un:
+                slots[k] = self.join_v(v, None, st) if filtered else v
+            return self.new(st, "dict", e, slots=slots)
+
         def build():
             self.eval(e.key, st)
             return self.new(st, "dict", e, elem=self.eval(e.value, st))
@@ -1038,6 +1180,7 @@ class Interp:
         calleev = None
         if isinstance(fn, ast.Attribute):
             basev = self.eval(fn.value, st)
+            self.note_deref(fn.value, basev, st)
             method = fn.attr
             bo = self.obj(st, basev)
             if bo is not None and bo.kind in ("module", "external"):
@@ -1087,8 +1230,9 @@ class Interp:
             for g in cs.callees:
                 sc = st.copy()
                 r, s2 = self.run_function(g, self._bind(g, args, kwargs, st), sc)
+                keepenv = st.env
                 merged = self.join_states(st, s2)
-                st.store, st.env = merged.store, st.env
+                st.store, st.owned, st.env = merged.store, merged.owned, keepenv
                 out = r if out is None else self.join_v(out, r, st)
             return out if out is not None else V(self.d.unknown(e))
         # 2. class constructor
@@ -1157,6 +1301,7 @@ class Interp:
         env = st.env
         r, s2 = self.run_function(g, self._bind(g, args, kwargs, st), st)
         st.store = s2.store
+        st.owned = s2.owned
         st.env = env
         return r
 
@@ -1205,8 +1350,7 @@ class Interp:
         if nm in ("builtins.next",) and args:
             return self.iter_elem(args[0], node, st)
         if nm in ("builtins.getattr",) and len(args) >= 2:
-            ck = getattr(self.d, "const_of", None)
-            name = ck(args[1]) if ck is not None else _NOKEY
+            name = self.const_of(args[1], st)
             if isinstance(name, str):
                 o = self.obj(st, args[0])
                 if o is not None and ("." + name) in o.slots:
@@ -1221,6 +1365,8 @@ class Interp:
         o = self.obj(st, base)
         if o is None:
             return None
+        if method in ("append", "add", "extend", "insert", "setdefault", "update", "pop"):
+            o = self.mobj(st, base)
         if o.kind in ("list", "set") or (o.kind == "unknown" and method in ("append", "extend", "add")):
             if method in ("append", "add") and args:
                 o.elem = args[0] if o.elem is None else self.join_v(o.elem, args[0], st)
@@ -1237,8 +1383,7 @@ class Interp:
             if method == "copy":
                 return self.new(st, o.kind, node, slots=dict(o.slots), elem=o.elem)
         if o.kind in ("dict", "unknown"):
-            ck = getattr(self.d, "const_of", None)
-            key = ck(args[0]) if (args and ck is not None) else _NOKEY
+            key = self.const_of(args[0], st) if args else _NOKEY
             if not isinstance(key, (str, int, tuple)):
                 key = _NOKEY
             if method == "get":
